@@ -109,11 +109,16 @@ fn setup_context(mut ctx: Context, l: Limits) -> Context {
     if let Some(v) = l.loop_iter { ctx.runtime_limits_mut().set_loop_iteration_limit(v); }
     if let Some(v) = l.recursion { ctx.runtime_limits_mut().set_recursion_limit(v); }
     if let Some(v) = l.stack { ctx.runtime_limits_mut().set_stack_size_limit(v); }
+    register_natives(&mut ctx);
+    ctx
+}
+
+/// the host functions of the harness, registered on the global object of the CURRENT realm
+pub fn register_natives(ctx: &mut Context) {
     ctx.register_global_builtin_callable(js_string!("print"), 0, NativeFunction::from_fn_ptr(print)).expect("print");
     ctx.register_global_builtin_callable(js_string!("__detach"), 1, NativeFunction::from_fn_ptr(detach)).expect("detach");
     ctx.register_global_builtin_callable(js_string!("__storage"), 1, NativeFunction::from_fn_ptr(storage)).expect("storage");
     ctx.register_global_builtin_callable(js_string!("__gc"), 0, NativeFunction::from_fn_ptr(gc_now)).expect("gc");
-    ctx
 }
 
 /// Canonical rendering of a completion value (no addresses, no timings).
